@@ -109,11 +109,13 @@ type vec struct {
 	Hash  string `json:"hash"`
 	Input hx.B   `json:"input"`
 	// nsec3
-	Names []hx.B `json:"names"`
-	Salt  hx.B   `json:"salt"`
-	Iter  int    `json:"iter"`
-	Plan  plan   `json:"plan"`
-	Term  []int  `json:"term"`
+	Names []hx.B   `json:"names"`
+	Keys  []string `json:"keys"`
+	DKey  string   `json:"dkey"`
+	Salt  hx.B     `json:"salt"`
+	Iter  int      `json:"iter"`
+	Plan  plan     `json:"plan"`
+	Term  []int    `json:"term"`
 	// cover
 	Zone       hx.B   `json:"zone"`
 	Name       hx.B   `json:"name"`
@@ -208,7 +210,7 @@ func one(i int, v *vec, sum *hx.Summary, seen map[string]bool, kl *keyLife) {
 		want := h(v.Input.Bytes())
 		got, err := hex.DecodeString(ds.Digest)
 		if err != nil || !bytes.Equal(got, want) {
-			sum.Mis("ds/digest:"+v.Hash, fmt.Sprintf("ToDS(%d) of owner %q: digest %s, %s over the RFC 4034 5.1.4 input gives %x", v.Dt, v.Owner.String(), ds.Digest, v.Hash, want), v)
+			sum.Mis(v.DKey, fmt.Sprintf("ToDS(%d) of owner %q: digest %s, %s over the RFC 4034 5.1.4 input gives %x", v.Dt, v.Owner.String(), ds.Digest, v.Hash, want), v)
 		}
 		if int(ds.KeyTag) != v.Tag || int(ds.Algorithm) != v.Alg || int(ds.DigestType) != v.Dt {
 			sum.Mis("ds/fields", fmt.Sprintf("ToDS(%d): keytag %d alg %d type %d, expected %d %d %d", v.Dt, ds.KeyTag, ds.Algorithm, ds.DigestType, v.Tag, v.Alg, v.Dt), v)
@@ -224,11 +226,7 @@ func one(i int, v *vec, sum *hx.Summary, seen map[string]bool, kl *keyLife) {
 			got := dns.HashName(n.String(), dns.SHA1, uint16(v.Iter), salt)
 			dec, err := b32.DecodeString(strings.ToUpper(got))
 			if err != nil || !bytes.Equal(dec, want) {
-				key := "nsec3/hashname"
-				if j > 0 {
-					key += ":case-variant"
-				}
-				sum.Mis(key, fmt.Sprintf("HashName(%q, SHA1, %d, salt of %d octets)=%q, RFC 5155 section 5 gives %s", n.String(), v.Iter, len(v.Salt), got, b32.EncodeToString(want)), v)
+				sum.Mis(v.Keys[j], fmt.Sprintf("HashName(%q, SHA1, %d, salt of %d octets)=%q, RFC 5155 section 5 gives %s", n.String(), v.Iter, len(v.Salt), got, b32.EncodeToString(want)), v)
 				break
 			}
 		}
@@ -355,7 +353,7 @@ func (kl *keyLife) behaviour(v *vec, c combo, fresh bool, sum *hx.Summary) {
 	}
 	var sigs []*dns.RRSIG
 	var signer []handle
-	alg := dns.AlgorithmToString[c.alg]
+	alg := c.String()
 	for _, o := range v.Ops {
 		switch o.Op {
 		case "gen":
@@ -553,6 +551,9 @@ type evKL struct {
 	Api string `json:"api"`
 	Ok  bool   `json:"ok"`
 	Alg string `json:"alg"`
+	// export / import / sign: the real call returned an error (the specification has no such outcome)
+	Failed bool   `json:"failed"`
+	Err    string `json:"err"`
 }
 
 func randLabels(r *rand.Rand, maxLabels int) []string {
@@ -594,6 +595,30 @@ func present(ls []string) string {
 	return s
 }
 
+// respell writes some letters of a presentation-format name as \\DDD (same name, RFC 1035 section 5.1)
+func respell(r *rand.Rand, s string) string {
+	var b strings.Builder
+	for i := 0; i < len(s); i++ {
+		c := s[i]
+		if c == '\\' { // keep existing escapes whole
+			if i+3 < len(s) && s[i+1] >= '0' && s[i+1] <= '9' {
+				b.WriteString(s[i : i+4])
+				i += 3
+			} else if i+1 < len(s) {
+				b.WriteString(s[i : i+2])
+				i++
+			}
+			continue
+		}
+		if ((c >= 'A' && c <= 'Z') || (c >= 'a' && c <= 'z')) && r.Intn(3) == 0 {
+			fmt.Fprintf(&b, "\\%03d", c)
+		} else {
+			b.WriteByte(c)
+		}
+	}
+	return b.String()
+}
+
 func limbs(v uint32) []int { return []int{int(v >> 16), int(v & 0xffff)} }
 
 func record(out string, n int) {
@@ -624,6 +649,9 @@ func record(out string, n int) {
 			key := make([]byte, []int{4, 32, 64, 96, 132, 260}[r.Intn(6)])
 			r.Read(key)
 			owner := present(randLabels(r, 4))
+			if r.Intn(8) == 0 {
+				owner = respell(r, owner)
+			}
 			e := evDS{Ev: "ds", Owner: hx.FromString(owner), Flags: []int{256, 257, 385}[r.Intn(3)], Proto: 3, Alg: algs[r.Intn(len(algs))], Key: hx.FromBytes(key),
 				Dt: []int{1, 2, 4, 1, 2, 4, 0, 3, 5, 6, 255, r.Intn(256)}[r.Intn(12)]}
 			ds := dnskey(owner, e.Flags, e.Proto, e.Alg, key).ToDS(uint8(e.Dt))
@@ -635,6 +663,9 @@ func record(out string, n int) {
 			w.Emit(e)
 		case 2:
 			name := present(randLabels(r, 5))
+			if r.Intn(8) == 0 {
+				name = respell(r, name)
+			}
 			salt := make([]byte, []int{0, 0, 1, 4, 8, 16, 40}[r.Intn(7)])
 			r.Read(salt)
 			iter := []int{0, 1, 2, 3, 5, 10, 12, 50, 100, 500}[r.Intn(10)]
@@ -771,8 +802,10 @@ func (kl *keyLife) recordRun(r *rand.Rand, w *hx.Writer, seen map[string]bool) {
 			} else {
 				p, err = texts[j].k.pub.ReadPrivateKey(strings.NewReader(textS[j]), "f")
 			}
-			if err != nil {
-				hx.Die("import of an exported %s key failed: %v (replay vectors report this as a finding)", alg, err)
+			if err != nil || p == nil {
+				w.Emit(evKL{Ev: "kl.import", T: j + 1, Api: api, Alg: alg, Failed: true, Err: fmt.Sprint(err)})
+				seen["kl"+alg+trace+"I"] = true
+				return
 			}
 			hs = append(hs, handle{texts[j].k, p, true})
 			w.Emit(evKL{Ev: "kl.import", T: j + 1, Api: api, Alg: alg})
@@ -783,7 +816,9 @@ func (kl *keyLife) recordRun(r *rand.Rand, w *hx.Writer, seen map[string]bool) {
 			sig := &dns.RRSIG{Hdr: dns.RR_Header{Name: "www.key.example.", Rrtype: dns.TypeRRSIG, Class: dns.ClassINET, Ttl: 300},
 				Inception: now - 3600, Expiration: now + 3600, KeyTag: hs[i].k.pub.KeyTag(), SignerName: hs[i].k.pub.Hdr.Name, Algorithm: c.alg}
 			if err := sig.Sign(hs[i].priv.(crypto.Signer), rrset); err != nil {
-				hx.Die("RRSIG.Sign with a %s key failed: %v", alg, err)
+				w.Emit(evKL{Ev: "kl.sign", H: i + 1, Alg: alg, Failed: true, Err: err.Error()})
+				seen["kl"+alg+trace+"S"] = true
+				return
 			}
 			sigs = append(sigs, sig)
 			w.Emit(evKL{Ev: "kl.sign", H: i + 1, Alg: alg})
@@ -820,7 +855,7 @@ func finish(path string) {
 		switch e.Kind {
 		case "ds":
 			if want := hashByName(e.Hash)(e.Input.Bytes()); !bytes.Equal(want, e.Digest.Bytes()) {
-				sum.Mis("ds/digest:"+e.Hash, fmt.Sprintf("event %d: recorded DS digest %x, %s over the specification's input gives %x", e.I, e.Digest.Bytes(), e.Hash, want), e)
+				sum.Mis(e.Key, fmt.Sprintf("event %d: recorded DS digest %x, %s over the specification's input gives %x", e.I, e.Digest.Bytes(), e.Hash, want), e)
 			}
 		case "n3":
 			if want := runPlan(e.Plan, hashByName("sha1")); !bytes.Equal(want, e.Digest.Bytes()) {
@@ -939,8 +974,9 @@ func rerun(in, out string) {
 			} else {
 				p, err = texts[j].k.pub.ReadPrivateKey(strings.NewReader(textS[j]), "f")
 			}
-			if err != nil {
-				hx.Die("import failed: %v", err)
+			if err != nil || p == nil {
+				w.Emit(evKL{Ev: e.Ev, T: j + 1, Api: e.Api, Alg: c.String(), Failed: true, Err: fmt.Sprint(err)})
+				return
 			}
 			hs = append(hs, handle{texts[j].k, p, true})
 			w.Emit(evKL{Ev: e.Ev, T: j + 1, Api: e.Api, Alg: c.String()})
@@ -950,7 +986,8 @@ func rerun(in, out string) {
 			sig := &dns.RRSIG{Hdr: dns.RR_Header{Name: "www.key.example.", Rrtype: dns.TypeRRSIG, Class: dns.ClassINET, Ttl: 300},
 				Inception: now - 3600, Expiration: now + 3600, KeyTag: h.k.pub.KeyTag(), SignerName: h.k.pub.Hdr.Name, Algorithm: c.alg}
 			if err := sig.Sign(h.priv.(crypto.Signer), rrset); err != nil {
-				hx.Die("sign failed: %v", err)
+				w.Emit(evKL{Ev: e.Ev, H: int(e.H.(float64)), Alg: c.String(), Failed: true, Err: err.Error()})
+				return
 			}
 			sigs = append(sigs, sig)
 			w.Emit(evKL{Ev: e.Ev, H: int(e.H.(float64)), Alg: c.String()})
